@@ -289,6 +289,37 @@ Proof.
   intros ->. rewrite Nat.sub_0_r. reflexivity.
 Qed.
 
+(* ---------------------------------------------------------------- the invariant as a test *)
+
+Lemma cache_is_empty_spec : forall c, cache_is_empty c = true <-> c = no_cache.
+Proof.
+  intros [[p|] [|o os] [|g gs]]; unfold cache_is_empty, no_cache; cbn; split; intros H;
+    try discriminate; reflexivity.
+Qed.
+
+Theorem inv_b_spec : forall s, inv_b s = true <-> inv s.
+Proof.
+  intros [n a m f [nv ne d dt e et] c vb ch pa].
+  unfold inv_b, inv_vis_b, inv_hid_b, inv, ginv.
+  cbn [SN SA SM SFirst SG SCache SVB SChoices SPath NV NE Deg DegTail Edg EdgTail].
+  rewrite !andb_true_iff, !Nat.eqb_eq, Nat.leb_le.
+  assert (T : (if nv =? 0
+               then match n, dt with 0, [] => true | S _, z :: _ => (z =? 0)%Z | _, _ => false end
+               else true) = true <->
+              (nv = 0 -> firstn 1 dt = firstn 1 (repeat 0%Z n))).
+  { destruct (nv =? 0) eqn:E.
+    - apply Nat.eqb_eq in E. destruct n as [|n], dt as [|z dt]; cbn; split; intros H; auto;
+        try discriminate; try (specialize (H E); discriminate).
+      + intros _. apply Z.eqb_eq in H. subst. reflexivity.
+      + specialize (H E). inversion H. reflexivity.
+    - apply Nat.eqb_neq in E. split; intros; [contradiction|reflexivity]. }
+  rewrite T. clear T.
+  destruct f, pa as [|p0 pa]; cbn [orb];
+    destruct (Nat.leb_spec 2 n) as [E2|E2]; destruct (Nat.leb_spec n 1) as [E1|E1];
+    rewrite ?cache_is_empty_spec, ?Nat.eqb_eq, ?Nat.leb_le; cbn [length];
+    intuition (try discriminate; try lia; auto).
+Qed.
+
 Section Save.
 Variable grow : nat -> nat.
 Variable canon : nat -> Z -> list (list nat) -> bool -> N -> cache.
